@@ -156,7 +156,95 @@ func solveOne(o *Obligation, dir string, idx int, timeoutS int, all bool) *Solve
 		}
 	}
 	res.Secs = time.Since(start).Seconds()
+	if res.Status == "unknown" && !o.Vacuity && len(o.Merges) > 0 {
+		splitSolve(o, res, dir, idx, timeoutS, avail)
+		res.Secs = time.Since(start).Seconds()
+	}
 	return res
+}
+
+// splitSolve retries an undecided obligation by case analysis over the edges
+// of one merge point (then two): reach implies that one incoming edge of each
+// merge on the path was taken, so the obligation holds iff it holds in every
+// case.  All cases must be unsat.
+func splitSolve(o *Obligation, res *SolveResult, dir string, idx int, timeoutS int, avail []solverDef) {
+	tryCases := func(cases [][]string, tag string) bool {
+		for ci, c := range cases {
+			script := o.ScriptWith(c) + "(get-model)\n"
+			file := filepath.Join(dir, fmt.Sprintf("o%04d.%s.%d.smt2", idx, tag, ci))
+			_ = os.WriteFile(file, []byte("; "+o.Name+" case "+strings.Join(c, " ")+"\n"+script), 0o644)
+			ok := false
+			for _, sd := range avail {
+				st, _ := runSolver(context.Background(), sd, file, splitTimeout(timeoutS))
+				if st == "unsat" {
+					ok = true
+					break
+				}
+				if st == "sat" {
+					return false
+				}
+			}
+			if !ok {
+				return false
+			}
+		}
+		return true
+	}
+	n := len(o.Merges)
+	lo := n - 6
+	if lo < 0 {
+		lo = 0
+	}
+	// all single-merge splits concurrently; the first complete one wins
+	type att struct {
+		ok  bool
+		tag string
+	}
+	ch := make(chan att, n)
+	cnt := 0
+	for i := n - 1; i >= lo; i-- {
+		var cases [][]string
+		for _, e := range o.Merges[i] {
+			cases = append(cases, []string{e})
+		}
+		// the complement keeps the case analysis exhaustive even when the
+		// merge point is not on every path to the obligation
+		cases = append(cases, []string{"(not (or " + strings.Join(o.Merges[i], " ") + "))"})
+		cnt++
+		go func(cases [][]string, i int) {
+			ch <- att{tryCases(cases, fmt.Sprintf("s%d", i)), "case-split(1)"}
+		}(cases, i)
+	}
+	for k := 0; k < cnt; k++ {
+		if a := <-ch; a.ok {
+			res.Status, res.Solver = "unsat", a.tag
+			return
+		}
+	}
+	cnt = 0
+	ch2 := make(chan att, n*n)
+	for i := n - 1; i >= lo; i-- {
+		for j := i - 1; j >= lo; j-- {
+			var cases [][]string
+			as := append(append([]string{}, o.Merges[i]...), "(not (or "+strings.Join(o.Merges[i], " ")+"))")
+			bs := append(append([]string{}, o.Merges[j]...), "(not (or "+strings.Join(o.Merges[j], " ")+"))")
+			for _, a := range as {
+				for _, b := range bs {
+					cases = append(cases, []string{a, b})
+				}
+			}
+			cnt++
+			go func(cases [][]string, i, j int) {
+				ch2 <- att{tryCases(cases, fmt.Sprintf("s%d_%d", i, j)), "case-split(2)"}
+			}(cases, i, j)
+		}
+	}
+	for k := 0; k < cnt; k++ {
+		if a := <-ch2; a.ok {
+			res.Status, res.Solver = "unsat", a.tag
+			return
+		}
+	}
 }
 
 func solveAll(obls []*Obligation, dir string, workers, timeoutS int, all bool) []*SolveResult {
@@ -174,4 +262,11 @@ func solveAll(obls []*Obligation, dir string, workers, timeoutS int, all bool) [
 	}
 	wg.Wait()
 	return results
+}
+
+func splitTimeout(t int) int {
+	if t > 6 {
+		return 6
+	}
+	return t
 }
